@@ -27,7 +27,7 @@ classmodel("TransactionManager", {
     "_task_waiter": Opt(Fut(NONE)),
     "_txn_partitions": Set(TP),
     "_pending_txn_partitions": Set(TP),
-    "_txn_consumer_group": Opt(STR),
+    "_txn_consumer_groups": Set(STR),
     "_pending_txn_offsets": List(PENDING),
     "_abortable_error": Opt(EXC),
 }, real=MOD + ":TransactionManager",
@@ -121,7 +121,7 @@ def _(c):
              ensures=[("no-effect", "unchanged(self)")], exact=True)
     c.ensures("state-set", "self.state == target")
     c.ensures("frame", "unchanged(self, 'transactional_id', '_pid_and_epoch', '_transaction_waiter', '_task_waiter',"
-              " '_txn_partitions', '_pending_txn_partitions', '_txn_consumer_group', '_pending_txn_offsets', '_sequence_numbers')")
+              " '_txn_partitions', '_pending_txn_partitions', '_txn_consumer_groups', '_pending_txn_offsets', '_sequence_numbers')")
 
 
 # ========================================================================== the API methods
@@ -211,14 +211,14 @@ def _(c):
 def _(c):
     c.self_("TransactionManager")
     c.returns(BOOL)
-    c.ensures("def", "result == (is_empty(self._txn_partitions) and self._txn_consumer_group is None)")
+    c.ensures("def", "result == (is_empty(self._txn_partitions) and is_empty(self._txn_consumer_groups))")
 
 
 @contract(MOD + ":TransactionManager.complete_transaction", ["C16", "C07"])
 def _(c):
     c.self_("TransactionManager")
     inv(c)
-    c.modifies("self.state", "self._txn_partitions", "self._txn_consumer_group", "self._abortable_error",
+    c.modifies("self.state", "self._txn_partitions", "self._txn_consumer_groups", "self._abortable_error",
                "self._transaction_waiter.state", "self._transaction_waiter.nres")
     c.ensures("the-ended-transactions-error-is-forgotten", "self._abortable_error is None")
     # only the EndTxn handler and the empty-transaction shortcut call it, while ending; should an error transition
@@ -231,7 +231,7 @@ def _(c):
              when="not (is_empty(self._pending_txn_partitions) and len(self._pending_txn_offsets) == 0)",
              ensures=[("no-effect", "unchanged(self)"), ("futures-untouched", "same_heap('Future')")], exact=True)
     c.ensures("ready", "self.state == TransactionState.READY")
-    c.ensures("scope-cleared", "is_empty(self._txn_partitions) and self._txn_consumer_group is None")
+    c.ensures("scope-cleared", "is_empty(self._txn_partitions) and is_empty(self._txn_consumer_groups)")
     c.ensures("caller-released", "implies(self._transaction_waiter is not None, self._transaction_waiter.done())")
     c.replay_fn = lambda model, ob=None: {"script": _COMPLETE_SCRIPT}
 
@@ -253,7 +253,7 @@ async def main():
             tm.begin_transaction()
             if round_ == 2:
                 if tm.txn_partitions or not tm.is_empty_transaction():
-                    bad.append("%s: the next transaction starts with %r / group %r registered" % (how, set(tm.txn_partitions), tm._txn_consumer_group))
+                    bad.append("%s: the next transaction starts with %r / group %r registered" % (how, set(tm.txn_partitions), tm._txn_consumer_groups))
             tm.maybe_add_partition_to_txn(tp); tm.partition_added(tp)
             fut = tm.add_offsets_to_txn({tp: OffsetAndMetadata(5, "")}, "g")
             if tm.consumer_group_to_add() != "g":
@@ -283,7 +283,7 @@ def _(c):
                "called-by-a-transactional-handler")
     c.requires("self._transaction_waiter is not None and (self.state == TransactionState.FATAL_ERROR"
                " or not self._transaction_waiter.done())", "a-transaction-is-open")
-    c.modifies("self.state", "self._txn_partitions", "self._txn_consumer_group", "self._pending_txn_partitions",
+    c.modifies("self.state", "self._txn_partitions", "self._txn_consumer_groups", "self._pending_txn_partitions",
                "self._pending_txn_offsets", "self._abortable_error", "Future.state", "Future.nres", "Future.exc")
     c.loop(0, header="for _, _, fut in self._pending_txn_offsets", invariants=[
         ("done-prefix", "forall(lambda j: implies(0 <= j < $i, self._pending_txn_offsets[j][2].done()))"),
@@ -305,10 +305,10 @@ def _(c):
     # C07 "a read-committed reader sees ... none of a transaction that was aborted" / C16 "abort returns the producer to
     # a state in which a new transaction succeeds": the abort that follows an abortable error has to send EndTxn(ABORT)
     # whenever the coordinator has registered anything for this transaction - whether EndTxn is sent is decided from
-    # _txn_partitions / _txn_consumer_group (is_empty_transaction), so what the coordinator acknowledged must not be
+    # _txn_partitions / _txn_consumer_groups (is_empty_transaction), so what the coordinator acknowledged must not be
     # forgotten before the transaction is ended (complete_transaction forgets it then)
     c.ensures("what-the-coordinator-registered-is-remembered-until-the-transaction-is-ended",
-              "self._txn_partitions == old(self._txn_partitions) and self._txn_consumer_group == old(self._txn_consumer_group)")
+              "self._txn_partitions == old(self._txn_partitions) and self._txn_consumer_groups == old(self._txn_consumer_groups)")
 
     @c.replay
     def replay(model, ob=None):
@@ -358,7 +358,7 @@ def _(c):
     for lbl, e in INVS[:2] + INVS[4:]:
         c.requires(e, "inv:" + lbl)
     c.requires("self._transaction_waiter is not None", "a-waiter-exists")
-    c.modifies("self.state", "self._txn_partitions", "self._txn_consumer_group", "self._pending_txn_partitions",
+    c.modifies("self.state", "self._txn_partitions", "self._txn_consumer_groups", "self._pending_txn_partitions",
                "self._pending_txn_offsets", "self._transaction_waiter", "Future.state", "Future.nres", "Future.exc")
     c.loop(0, header="for _, _, fut in self._pending_txn_offsets", invariants=[
         ("done-prefix", "forall(lambda j: implies(0 <= j < $i, self._pending_txn_offsets[j][2].done()))"),
@@ -415,8 +415,8 @@ def _(c):
 def _(c):
     c.self_("TransactionManager")
     c.param("group_id", STR)
-    c.modifies("self._txn_consumer_group")
-    c.ensures("set", "self._txn_consumer_group == group_id")
+    c.modifies("self._txn_consumer_groups")
+    c.ensures("added", "self._txn_consumer_groups == set_with(old(self._txn_consumer_groups), group_id)")
 
 
 @contract(MOD + ":TransactionManager.add_offsets_to_txn", ["C16", "C07"])
